@@ -1630,3 +1630,207 @@ pub fn run_server_history(cfg: &ScenCfg, out: &mut RunOut) {
     kernel::settle();
     let _ = tasks;
 }
+
+// ---------------------------------------------------------------------------
+// C14 on a TLS channel: a connection counts as successful only once the TLS
+// handshake is done. A scripted peer refuses TCP, breaks the handshake in
+// several ways, or completes it and closes later; the waits announced to the
+// listener must follow model::client::Retry over that outcome sequence and be
+// the waits actually observed before the next TCP attempt.
+
+#[derive(Clone, Copy, Debug, PartialEq)]
+enum ConnStep {
+    Refused,
+    Garbage,
+    CloseAtOnce,
+    BadCertificate,
+    /// handshake completes; the peer closes after this many ns
+    Good(u64),
+}
+
+pub fn run_client_retry(cfg: &ScenCfg, out: &mut RunOut) {
+    use crate::model::client::{MState, Retry};
+    let sched = chance(1, 2);
+    let chunk = chance(1, 2);
+    kernel::with(|w| {
+        w.cfg.sched_random = sched;
+        w.cfg.select_random = sched;
+        w.cfg.chunk_reads = chunk;
+        w.cfg.short_writes = chunk;
+        w.cfg.max_latency_ns = 0;
+    });
+    let (dec_idx, decode) = pick_decode(&cfg.decode);
+    let retry_min = [1 * MS, 50 * MS, 1000 * MS][choose(3) as usize];
+    let retry_max = retry_min * [1u64, 2, 8, 60][choose(4) as usize];
+    let n = 2 + choose(7) as usize;
+    let mut script: Vec<ConnStep> = Vec::new();
+    for _ in 0..n {
+        script.push(match weighted(&[2, 2, 2, 2, 3]) {
+            0 => ConnStep::Refused,
+            1 => ConnStep::Garbage,
+            2 => ConnStep::CloseAtOnce,
+            3 => ConnStep::BadCertificate,
+            _ => ConnStep::Good([0u64, 1 * MS, 700 * MS][choose(3) as usize]),
+        });
+    }
+    let tls = match TlsClientConfig::full_pki(Some("test.com".to_string()), &fixture("ca1_cert.pem"), &fixture("cli_operator_cert.pem"), &fixture("cli_operator_key.pem"), None, MinTlsVersion::V1_2) {
+        Ok(t) => t,
+        Err(e) => {
+            out.violate("C09", "client_config_rejected", format!("TlsClientConfig::full_pki failed: {}", e));
+            return;
+        }
+    };
+    let addr: SocketAddr = "10.0.0.7:802".parse().unwrap();
+    let states: super::client::StateLog = Arc::new(Mutex::new(Vec::new()));
+    let (channel, task) = create_tls_client_task_with_options(
+        HostAddr::ip(addr.ip(), addr.port()),
+        doubling_retry_strategy(Duration::from_nanos(retry_min), Duration::from_nanos(retry_max)),
+        tls,
+        Some(Box::new(super::client::Listen { log: states.clone(), delay_ns: 0 })),
+        ClientOptions::default().decode_level(decode),
+    );
+    let task = simtokio::task::spawn_named("tls-client", task.run());
+    // connect plans are consumed one per attempt, in order
+    for s in &script {
+        net::plan_connect(addr, if *s == ConnStep::Refused { net::ConnectOutcome::Refused } else { net::ConnectOutcome::Accept });
+    }
+    let listener = TcpListener::bind_now(addr).unwrap();
+    let good = peer_server_config(2, "srv_ok_cert.pem", "srv_ok_key.pem");
+    let bad = peer_server_config(2, "srv_wrongca_cert.pem", "srv_wrongca_key.pem");
+    let accepted: Vec<ConnStep> = script.iter().copied().filter(|s| *s != ConnStep::Refused).collect();
+    simtokio::task::spawn_named("tls-peer-server", async move {
+        for step in accepted {
+            let (mut tcp, _) = match listener.accept().await {
+                Ok(x) => x,
+                Err(_) => return,
+            };
+            match step {
+                ConnStep::Garbage => {
+                    let _ = tcp.write_all(&[0x00, 0x01, 0x00, 0x00, 0x00, 0x05, 0x01, 0x03, 0x02, 0x00, 0x07]).await;
+                    // keep the socket: the client must give up because of what it read
+                    simtokio::task::spawn_named("hold", async move {
+                        simtokio::time::sleep(Duration::from_secs(3600)).await;
+                        drop(tcp);
+                    });
+                }
+                ConnStep::CloseAtOnce => drop(tcp),
+                ConnStep::BadCertificate | ConnStep::Good(_) => {
+                    let acceptor = tokio_rustls::TlsAcceptor::from(if step == ConnStep::BadCertificate { bad.clone() } else { good.clone() });
+                    if let Ok(stream) = acceptor.accept(tcp).await {
+                        if let ConnStep::Good(hold) = step {
+                            simtokio::time::sleep(Duration::from_nanos(hold)).await;
+                        }
+                        drop(stream);
+                    }
+                }
+                ConnStep::Refused => unreachable!(),
+            }
+        }
+        // afterwards: accept and stay silent
+        loop {
+            match listener.accept().await {
+                Ok((tcp, _)) => {
+                    simtokio::task::spawn_named("hold", async move {
+                        simtokio::time::sleep(Duration::from_secs(36_000)).await;
+                        drop(tcp);
+                    });
+                }
+                Err(_) => return,
+            }
+        }
+    });
+    kernel::settle();
+    let _ = kernel::block_on(channel.enable());
+    // long enough for every wait of the script
+    let budget: u64 = script.len() as u64 * (retry_max + 800 * MS) + 100 * MS;
+    let waits_seen = |st: &Vec<(u64, MState)>| st.iter().filter(|(_, s)| matches!(s, MState::WaitAfterFailedConnect(_) | MState::WaitAfterDisconnect(_))).count();
+    {
+        let states = states.clone();
+        let want = script.len();
+        kernel::run_until(move || waits_seen(&states.lock().unwrap()) >= want, budget, 2_000_000);
+    }
+    let st: Vec<(u64, MState)> = states.lock().unwrap().clone();
+    let attempts: Vec<u64> = net::attempts().iter().map(|a| a.at).collect();
+    let desc = format!("TLS client, retry min {} ms max {} ms, connection outcomes {:?}", retry_min / MS, retry_max / MS, script);
+    // expected: Connecting, then per step either Wait(failed) or Connected + Wait(disconnect), each followed by Connecting
+    let mut retry = Retry::new(retry_min, retry_max);
+    let mut it = st.iter().skip_while(|(_, s)| *s != MState::Connecting).peekable();
+    let mut ok = true;
+    let mut step_i = 0usize;
+    let mut attempt_i = 0usize;
+    'steps: for step in &script {
+        // Connecting at the instant of a TCP attempt
+        let (tc, _) = match it.next() {
+            Some((t, MState::Connecting)) => (*t, ()),
+            other => {
+                out.violate("C14", "tls_retry_sequence", format!("{}: step {} expected Connecting, listener has {:?}; full log {:?}", desc, step_i, other, st));
+                ok = false;
+                break 'steps;
+            }
+        };
+        if attempts.get(attempt_i) != Some(&tc) {
+            out.violate("C14", "tls_attempt_instant", format!("{}: step {}: Connecting announced at {} but TCP attempts were made at {:?}", desc, step_i, tc, attempts));
+            ok = false;
+            break;
+        }
+        attempt_i += 1;
+        let (tw, d) = match step {
+            ConnStep::Good(_) => {
+                match it.next() {
+                    Some((_, MState::Connected)) => {}
+                    other => {
+                        out.violate("C14", "tls_retry_sequence", format!("{}: step {} ({:?}) expected Connected, got {:?}; full log {:?}", desc, step_i, step, other, st));
+                        ok = false;
+                        break 'steps;
+                    }
+                }
+                retry.reset();
+                let want = retry.disconnected();
+                match it.next() {
+                    Some((t, MState::WaitAfterDisconnect(d))) if *d == want => (*t, *d),
+                    other => {
+                        out.violate("C14", "tls_retry_delay", format!("{}: step {} ({:?}) expected WaitAfterDisconnect({}), got {:?}; full log {:?}", desc, step_i, step, want, other, st));
+                        ok = false;
+                        break 'steps;
+                    }
+                }
+            }
+            _ => {
+                let want = retry.failed();
+                match it.next() {
+                    Some((t, MState::WaitAfterFailedConnect(d))) if *d == want => (*t, *d),
+                    other => {
+                        out.violate("C14", "tls_retry_delay", format!("{}: step {} ({:?}) expected WaitAfterFailedConnect({}), got {:?}; full log {:?}", desc, step_i, step, want, other, st));
+                        ok = false;
+                        break 'steps;
+                    }
+                }
+            }
+        };
+        // the wait is the one actually observed
+        if let Some((tn, s)) = it.peek() {
+            if *s != MState::Connecting || *tn != tw + d {
+                out.violate("C14", "tls_wait_not_honoured", format!("{}: step {}: a wait of {} announced at {} was followed by {:?} at {} (expected Connecting at {}); full log {:?}", desc, step_i, d, tw, s, tn, tw + d, st));
+                ok = false;
+                break;
+            }
+        }
+        out.ops_checked += 1;
+        step_i += 1;
+    }
+    if ok && step_i < script.len() {
+        out.violate("C14", "tls_retry_sequence", format!("{}: only {} of {} outcomes were reached within {} ns; log {:?}", desc, step_i, script.len(), budget, st));
+    }
+    out.probe("tls_retry_runs");
+    if script.windows(2).any(|w| matches!(w[0], ConnStep::Garbage | ConnStep::CloseAtOnce | ConnStep::BadCertificate) && matches!(w[1], ConnStep::Garbage | ConnStep::CloseAtOnce | ConnStep::BadCertificate)) {
+        out.probe("tls_consecutive_failed_handshakes");
+    }
+    let mut wl = dec_idx as u64 ^ retry_min << 8 ^ retry_max << 20;
+    hash_bytes(&mut wl, format!("{:?}", script).as_bytes());
+    out.nontrivial = Some(wl);
+    out.sample = Some(json!({"scenario": "tls client retry schedule", "retry_min_ms": retry_min / MS, "retry_max_ms": retry_max / MS, "outcomes": format!("{:?}", script)}));
+    out.observable.extend(format!("{:?}", st).into_bytes());
+    let _ = kernel::block_on(channel.shutdown());
+    kernel::run_until(|| false, kernel::now_ns() + 100 * MS, 100_000);
+    let _ = task;
+}
